@@ -28,9 +28,17 @@ no copy-on-write):
   * groupBy    stream: dimensions = the sorted listed tags (or all tags of the point under `*`) minus the excluded ones;
                batch: points regrouped by those dimensions, sorted by time, nothing invented, nothing duplicated.
 Batch edges: the same function applied to the points of each batch with a fresh history.
+
+Carriers (nodes that do not transform; the output of the nodes above reaches its consumers THROUGH them):
+  * log, httpOut, httpPost (no codeField): what leaves the node is what entered it — every point, and every batch with
+               exactly the points that entered it, in order — whenever the consumer gets round to reading it;
+  * union      every message of either parent leaves the node exactly once and nothing else does (the order is C12's);
+  * a node that collects a batch arriving as begin / points / end (edge.BatchBuffer) hands on, per `end`, the latest begin
+               and exactly the points that came in since (`Buf.specBuffered`).
 Core Lean only.
 -/
 import Kap.Model.C10
+import Kap.Model.C10Buf
 namespace Kap.C10
 
 /-! ## Equality of data as maps -/
@@ -396,4 +404,48 @@ def specGroupByBatchOk (c : GroupByCfg) (ins outs : List Batch) : Bool :=
     b.points.all (fun p => mapEqB b.tags (restrictTags p.tags (specGroupByDims c p.tags)))) &&
   outPts.all (fun p => (outPts.filter (fun q => q.equivB p)).length ≤ (inPts.filter (fun q => q.equivB p)).length)
 
+/-! ## Carriers: log, httpOut, httpPost, union -/
+
+def Edge.sameB : Edge → Edge → Bool
+  | .stream a, .stream b => listEquivB Point.equivB a b
+  | .batch a, .batch b => listEquivB Batch.equivB a b
+  | _, _ => false
+
+/-- remove the first element equal (under `f`) to `x` -/
+def eraseFirstB {α : Type} (f : α → α → Bool) (x : α) : List α → Option (List α)
+  | [] => none
+  | y :: ys => if f x y then some ys else (eraseFirstB f x ys).map (y :: ·)
+
+/-- the two lists hold the same elements the same number of times -/
+def permB {α : Type} (f : α → α → Bool) : List α → List α → Bool
+  | [], ys => ys.isEmpty
+  | x :: xs, ys => match eraseFirstB f x ys with
+    | some r => permB f xs r
+    | none => false
+
+/-- log / httpOut / httpPost: the output is the input — each batch arrives with exactly the points that entered. -/
+def specPassThrough (inp obs : Edge) : Bool := Edge.sameB inp obs
+
+/-- union: the messages of both parents, each exactly once, nothing else. -/
+def specUnionOk (a b obs : Edge) : Bool :=
+  match a, b, obs with
+  | .stream x, .stream y, .stream o => permB Point.equivB (x ++ y) o
+  | .batch x, .batch y, .batch o => permB Batch.equivB (x ++ y) o
+  | _, _, _ => false
+
 end Kap.C10
+
+namespace Kap.C10.Buf
+
+/-- The documented behaviour of a node that buffers a batch arriving message by message, without any heap: per `end` one
+batch = the latest begin message and the points that came in since then (an `end` does not clear anything: the points
+stay until the next begin). -/
+def specGo {α β : Type} : Option β → List α → List (Op α β) → List (Option β × List α)
+  | _, _, [] => []
+  | _, _, .begin b _ :: r => specGo (some b) [] r
+  | b, cur, .point x :: r => specGo b (cur ++ [x]) r
+  | b, cur, .end_ :: r => (b, cur) :: specGo b cur r
+
+def specBuffered {α β : Type} (ops : List (Op α β)) : List (Option β × List α) := specGo none [] ops
+
+end Kap.C10.Buf
